@@ -24,6 +24,7 @@ type Result struct {
 	Bool  bool
 	Name  string
 	IsDir bool
+	Size  int64  // Lstat of a file (-1 for directories)
 	Note  string // stream anomalies etc.
 }
 
@@ -116,6 +117,10 @@ func Exec(root filesystem.Filespace, op treefs.Op) (r Result) {
 				r.Err = "Lstat returned nil, nil"
 			} else {
 				r.Name, r.IsDir = fi.Name(), fi.IsDir()
+				r.Size = -1
+				if !fi.IsDir() {
+					r.Size = fi.Size()
+				}
 			}
 		}
 	case "ReadFile":
@@ -325,6 +330,10 @@ func FlatKey(flat map[string]string) string {
 // ModelFlat renders a model tree the same way.
 func ModelFlat(t *treefs.Node) map[string]string { return t.Flat() }
 
+// CheckSizes makes Compare judge Lstat().Size() of files (plaintext backends only: an encrypted
+// filespace legitimately reports the stored size).
+var CheckSizes = false
+
 // Mismatch describes how an implementation step deviates from the model.
 type Mismatch struct {
 	Clause string
@@ -389,6 +398,9 @@ func Compare(t *treefs.Node, op treefs.Op, e treefs.Expect, r Result, after map[
 		case "Lstat":
 			if r.IsDir != e.IsDir || (e.Name != "" && r.Name != e.Name) {
 				return &Mismatch{"stat agrees with the tree", "wrong-stat", fmt.Sprintf("returned name=%q dir=%v, model name=%q dir=%v", r.Name, r.IsDir, e.Name, e.IsDir)}
+			}
+			if CheckSizes && !e.IsDir && r.Size != int64(e.Size) {
+				return &Mismatch{"stat agrees with the tree", "wrong-stat-size", fmt.Sprintf("file of %d bytes: Lstat().Size() = %d", e.Size, r.Size)}
 			}
 		case "Writer":
 			if r.Note != "" {
